@@ -749,3 +749,486 @@ Section InsSplit.
       + reflexivity.
   Qed.
 End InsSplit.
+
+Section InsDescend.
+  Variable empty : nlabel.
+  Hypothesis Ce : canonical empty = false.
+  Variable rec : option tree -> eset -> N -> option (tree * bool * N).
+
+  (* case 1b: every new element lies below the existing node: descend into its children *)
+  Lemma ins_some_descend q s e ex :
+    1 <= e -> good_set s -> eset_list s <> [] -> set_ok q (eset_list s) -> tree_pre q e (Some ex) (eset_list s) ->
+    (forall B, (length q <= length B)%nat -> rec_ok rec e B) ->
+    let l := get_longest_common_prefix empty (tlabel ex) (eset_lcp empty s) in
+    (length (bits_of (tlabel ex)) <= length (bits_of l))%nat ->
+    exists r k, finish rec ex false 0 s e = Some (r, false, k) /\ post q (Some ex) (eset_list s) e r.
+  Proof.
+    intros He Hg Hne Hso Hpre Hrec l Hge.
+    destruct (some_setup empty Ce q s e ex Hg Hne Hso Hpre) as (Lb & Lw & Lc & Hq & Hpl & H256 & Hx256).
+    cbv zeta in Lb, Lw, Lc, Hq, Hpl, H256. fold l in Lb, Lw, Lc, Hq, Hpl.
+    set (S := eset_list s) in *. set (Bx := bits_of (tlabel ex)) in *.
+    destruct Hpre as (Cex & Pex & Lex & Dex). destruct (canon_label ex Cex) as [Wx Cx].
+    (* the node's label is the common prefix: it is a prefix of every new element *)
+    assert (El : bits_of l = Bx).
+    { apply prefixb_antisym; [rewrite Lb; apply lcp_prefix_l|].
+      apply prefixb_Prefix. assert (Hp : prefixb (bits_of l) Bx = true) by (rewrite Lb; apply lcp_prefix_l).
+      apply prefixb_Prefix in Hp. destruct Hp as [c Hc]. destruct c as [|c0 c]; [exists []; rewrite Hc, !app_nil_r; reflexivity|].
+      rewrite Hc, app_length in Hge. cbn [length] in Hge. lia. }
+    assert (Hpx : forall x, In x S -> prefixb Bx (bits_of (e_label x)) = true) by (intros x Hx; rewrite <- El; apply Hpl; exact Hx).
+    destruct ex as [lx vx epx | l0 le0 mde0 a0 b0].
+    - (* a leaf cannot be a prefix of a different 256-bit label *)
+      exfalso. destruct S as [|x S'] eqn:ES; [congruence|].
+      assert (Hx : In x (x :: S')) by (left; reflexivity).
+      pose proof (Lex (LF lx vx epx) (or_introl eq_refl)) as (Hl256 & _). cbn [lf_label] in Hl256.
+      assert (Eb : bits_of (e_label x) = Bx).
+      { symmetry. apply prefixb_antisym; [apply Hpx; exact Hx|].
+        pose proof (Hpx x Hx) as Hp. apply prefixb_Prefix in Hp. destruct Hp as [c Hc].
+        assert (L1 : length Bx = 256%nat) by (unfold Bx; cbn [tlabel]; rewrite len_bits by exact Wx; rewrite Hl256; reflexivity).
+        pose proof (H256 x Hx) as L2. rewrite Hc, app_length, L1 in L2. destruct c; [|cbn [length] in L2; lia].
+        rewrite Hc, app_nil_r. apply prefixb_refl. }
+      apply (Dex x (LF lx vx epx) Hx (or_introl eq_refl)). cbn [lf_label].
+      destruct ((proj1 Hso) x Hx) as [Wxe Cxe]. apply bits_of_inj; first [assumption | exact Eb].
+    - destruct Cex as [Wsub Aok]. destruct (wf_sub_node _ _ _ _ _ Wsub) as (a' & b' & -> & -> & W0 & C0 & Pa0 & Pb0 & Wa0 & Wb0).
+      cbn [ann_ok] in Aok. destruct Aok as (Ele & Emde & Aa & Ab).
+      cbn [tlabel] in Bx.
+      assert (Ca0 : canon a') by (split; assumption). assert (Cb0 : canon b') by (split; assumption).
+      assert (La0 : leaves_ok e (leaves a')) by (intros y Hy; apply Lex; cbn [leaves]; apply in_or_app; left; exact Hy).
+      assert (Lb0 : leaves_ok e (leaves b')) by (intros y Hy; apply Lex; cbn [leaves]; apply in_or_app; right; exact Hy).
+      destruct (canon_epochs a' e Ca0 La0) as (Lla & Lma1 & Lmae). destruct (canon_epochs b' e Cb0 Lb0) as (Llb & Lmb1 & Lmbe).
+      assert (Hlen0 : (length Bx < 256)%nat).
+      { destruct (canon_label a' Ca0) as [Wa _]. pose proof Pa0 as P. unfold pord in P. fold Bx in P.
+        destruct (length (bits_of (tlabel a')) <=? length Bx)%nat eqn:E; [discriminate|]. apply Nat.leb_gt in E.
+        rewrite (len_bits _ Wa) in E. destruct (WF_parts _ Wa) as (_ & H & _). lia. }
+      assert (Hnn : forall x, In x S -> pord Bx (bits_of (e_label x)) <> None).
+      { intros x Hx. unfold pord. rewrite (H256 x Hx), (Hpx x Hx).
+        assert (E : (256 <=? length Bx)%nat = false) by (apply Nat.leb_gt; lia). rewrite E. discriminate. }
+      assert (Hso' : set_ok Bx S).
+      { destruct Hso as (H1 & H2 & H3 & H4). repeat split; try assumption; try (apply H1; assumption). }
+      assert (Hcpa : child_pre Bx e S false (Some a')).
+      { cbn [child_pre tree_pre]. split; [exact Ca0|]. split; [apply pord_prefix; exact Pa0|]. split; [exact La0|].
+        intros x y Hx Hy. apply filter_In in Hx. apply Dex; [apply Hx | cbn [leaves]; apply in_or_app; left; exact Hy]. }
+      assert (Hcpb : child_pre Bx e S true (Some b')).
+      { cbn [child_pre tree_pre]. split; [exact Cb0|]. split; [apply pord_prefix; exact Pb0|]. split; [exact Lb0|].
+        intros x y Hx Hy. apply filter_In in Hx. apply Dex; [apply Hx | cbn [leaves]; apply in_or_app; right; exact Hy]. }
+      assert (W0' : WF l0) by exact W0.
+      destruct (finish_spec rec l0 le0 mde0 (Some a') (Some b') false 0 s e W0' C0 Hg Hso' Hnn Hcpa Hcpb (Hrec Bx (prefixb_length _ _ Pex)))
+        as (a2 & b2 & k' & EF & Sa & Sb).
+      fold S in EF, Sa, Sb. fold Bx in EF, Sa, Sb.
+      destruct (slot_facts _ _ _ _ _ _ Sa He (conj Ca0 (conj Pa0 La0))) as (PA & FA).
+      destruct (slot_facts _ _ _ _ _ _ Sb He (conj Cb0 (conj Pb0 Lb0))) as (PB & FB).
+      destruct a2 as [ra|]; [|destruct FA as [FA _]; congruence]. destruct b2 as [rb|]; [|destruct FB as [FB _]; congruence].
+      destruct FA as (Cra & Pra & Lra & Lrae & Mra). destruct FB as (Crb & Prb & Lrb & Lrbe & Mrb). cbn [omde] in Mra, Mrb.
+      eexists. exists k'. split; [exact EF|].
+      destruct (side_cover Bx S Hne Hnn) as [HL|HR].
+      + (* the left side is updated *)
+        specialize (Lrae HL).
+        assert (HLE : le_upd (le_upd le0 e (filter (side Bx false) S)) e (filter (side Bx true) S) = e).
+        { destruct (filter (side Bx false) S); [congruence|]. destruct (filter (side Bx true) S); cbn [le_upd]; lia. }
+        assert (HMDE : mde_upd (mde_upd mde0 (filter (side Bx false) S) (omde e (Some a'))) (filter (side Bx true) S) (omde e (Some b')) = mde0).
+        { cbn [omde]. assert (E0 : (mde0 =? 0) = false) by (apply N.eqb_neq; lia).
+          assert (E1 : (N.min mde0 (t_min_desc a') =? 0) = false) by (apply N.eqb_neq; lia).
+          destruct (filter (side Bx false) S); destruct (filter (side Bx true) S); cbn [mde_upd]; rewrite ?E0, ?E1; lia. }
+        rewrite HLE, HMDE.
+        split; [|split; [|split; [|split]]].
+        * apply canon_node; try assumption; [rewrite Lrae; lia | rewrite Mra, Mrb; exact Emde].
+        * exact Pex.
+        * cbn [leaves oleaves]. cbn [oleaves] in PA, PB.
+          eapply Permutation_trans; [apply Permutation_app; [exact PA | exact PB]|].
+          eapply Permutation_trans; [apply perm_shuffle|]. apply Permutation_app_head. apply sides_perm. exact Hnn.
+        * reflexivity.
+        * reflexivity.
+      + specialize (Lrbe HR).
+        assert (HLE : le_upd (le_upd le0 e (filter (side Bx false) S)) e (filter (side Bx true) S) = e).
+        { destruct (filter (side Bx true) S); [congruence|]. destruct (filter (side Bx false) S); cbn [le_upd]; lia. }
+        assert (HMDE : mde_upd (mde_upd mde0 (filter (side Bx false) S) (omde e (Some a'))) (filter (side Bx true) S) (omde e (Some b')) = mde0).
+        { cbn [omde]. assert (E0 : (mde0 =? 0) = false) by (apply N.eqb_neq; lia).
+          assert (E1 : (N.min mde0 (t_min_desc a') =? 0) = false) by (apply N.eqb_neq; lia).
+          destruct (filter (side Bx false) S); destruct (filter (side Bx true) S); cbn [mde_upd]; rewrite ?E0, ?E1; lia. }
+        rewrite HLE, HMDE.
+        split; [|split; [|split; [|split]]].
+        * apply canon_node; try assumption; [rewrite Lrbe; lia | rewrite Mra, Mrb; exact Emde].
+        * exact Pex.
+        * cbn [leaves oleaves]. cbn [oleaves] in PA, PB.
+          eapply Permutation_trans; [apply Permutation_app; [exact PA | exact PB]|].
+          eapply Permutation_trans; [apply perm_shuffle|]. apply Permutation_app_head. apply sides_perm. exact Hnn.
+        * reflexivity.
+        * reflexivity.
+  Qed.
+End InsDescend.
+
+(* ------------------------------------------------------------------ the theorem for subtrees *)
+Section InsMain.
+  Variable empty : nlabel.
+  Hypothesis Ce : canonical empty = false.
+
+  Theorem ins_spec : forall fuel q t s e,
+    (257 <= fuel + length q)%nat -> 1 <= e -> good_set s -> eset_list s <> [] -> set_ok q (eset_list s) ->
+    tree_pre q e t (eset_list s) ->
+    exists r isn k, ins empty fuel t s e = Some (r, isn, k) /\ post q t (eset_list s) e r.
+  Proof.
+    induction fuel as [|f IH]; intros q t s e Hf He Hg Hne Hso Hpre.
+    - exfalso. pose proof (q_le_256 q (eset_list s) Hne Hso). lia.
+    - rewrite ins_unfold.
+      assert (Hrec : forall B, (length q <= length B)%nat -> rec_ok (ins empty f) e B).
+      { intros B HB dir t' s' Hg' Hne' Hso' Hpre'. apply IH; try assumption. rewrite app_length. cbn [length]. lia. }
+      destruct t as [ex|].
+      + (* an existing subtree *)
+        unfold cur_node.
+        set (l := get_longest_common_prefix empty (tlabel ex) (eset_lcp empty s)).
+        destruct (some_setup empty Ce q s e ex Hg Hne Hso Hpre) as (_ & Lw & _ & _ & _ & _ & _). cbv zeta in Lw. fold l in Lw.
+        destruct Hpre as (Cex & Pex & Lex & Dex). destruct (canon_label ex Cex) as [Wx _].
+        destruct (llen l <? llen (tlabel ex)) eqn:E.
+        * apply N.ltb_lt in E.
+          assert (Hlt : (length (bits_of l) < length (bits_of (tlabel ex)))%nat) by (rewrite !len_bits by assumption; lia).
+          destruct (ins_some_split empty Ce (ins empty f) q s e ex He Hg Hne Hso (conj Cex (conj Pex (conj Lex Dex))) Hrec Hlt)
+            as (n & r & k & En & EF & Hp).
+          fold l in En. rewrite En. exists r, true, k. split; [exact EF | exact Hp].
+        * apply N.ltb_ge in E.
+          assert (Hge : (length (bits_of (tlabel ex)) <= length (bits_of l))%nat) by (rewrite !len_bits by assumption; lia).
+          destruct (ins_some_descend empty Ce (ins empty f) q s e ex He Hg Hne Hso (conj Cex (conj Pex (conj Lex Dex))) Hrec Hge)
+            as (r & k & EF & Hp).
+          exists r, false, k. split; [exact EF | exact Hp].
+      + (* no existing subtree *)
+        unfold cur_node. destruct (eset_list s) as [|x [|y r0]] eqn:ES; [congruence| |].
+        * destruct (ins_none_single (ins empty f) q s e x ES Hso) as (k & EF & Hp).
+          exists (Leaf (e_label x) (e_value x) e), true, k. split; [exact EF | exact Hp].
+        * rewrite <- ES in Hso.
+          destruct (ins_none_many empty Ce (ins empty f) q s e x y r0 He Hg ES Hso Hrec) as (r & k & EF & Hp).
+          rewrite ES in Hp. exists r, true, k. split; [exact EF | exact Hp].
+  Qed.
+End InsMain.
+
+(* ------------------------------------------------------------------ the element set built from a batch *)
+From Akd Require Import InsertFacts.
+
+Lemma insert_sorted_perm x l : Permutation (insert_sorted x l) (x :: l).
+Proof.
+  induction l as [|y l IH]; cbn [insert_sorted]; [apply Permutation_refl|].
+  destruct (elem_leb x y); [apply Permutation_refl|].
+  eapply Permutation_trans; [apply perm_skip; exact IH|]. apply perm_swap.
+Qed.
+Lemma sort_elems_perm l : Permutation (sort_elems l) l.
+Proof.
+  unfold sort_elems. induction l as [|x l IH]; cbn [fold_right]; [constructor|].
+  eapply Permutation_trans; [apply insert_sorted_perm|]. constructor. exact IH.
+Qed.
+
+Lemma sorted_lt_bits l : elabs_ok l -> same_len l -> sorted_lt l -> sorted_bits l.
+Proof.
+  intros Hok [len Hlen]. induction 1 as [|x l Hx Hs IH]; [constructor|].
+  constructor.
+  - intros y Hy. specialize (Hx y Hy). unfold lab_lt in Hx.
+    destruct (Hok x (or_introl eq_refl)) as [Wx Cx]. destruct (Hok y (or_intror Hy)) as [Wy Cy].
+    rewrite nl_cmp_spec in Hx by assumption. unfold shortlex_cmp in Hx.
+    rewrite !length_bits_of in Hx by assumption. rewrite (Hlen x (or_introl eq_refl)), (Hlen y (or_intror Hy)) in Hx.
+    rewrite Nat.compare_refl in Hx. exact Hx.
+  - apply IH; [intros z Hz; apply Hok; right; exact Hz | intros z Hz; apply Hlen; right; exact Hz].
+Qed.
+
+(* a batch as the directory hands it to the tree: distinct 256-bit labels *)
+Definition batch_ok (elems : list elem) : Prop :=
+  elabs_ok elems /\ (forall x, In x elems -> llen (e_label x) = 256) /\ NoDup (map e_label elems).
+
+Lemma eset_from_good elems : elems <> [] -> batch_ok elems ->
+  good_set (eset_from elems) /\ Permutation (eset_list (eset_from elems)) elems.
+Proof.
+  intros Hne (Hok & Hlen & Hnd). destruct elems as [|x r] eqn:E; [congruence|]. rewrite <- E in *.
+  unfold eset_from. rewrite E. rewrite <- E.
+  assert (Hall : forallb (fun y => llen (e_label y) =? llen (e_label x)) elems = true).
+  { apply forallb_forall. intros y Hy. rewrite (Hlen y Hy), (Hlen x ltac:(rewrite E; left; reflexivity)). apply N.eqb_refl. }
+  rewrite Hall. cbn [good_set eset_list]. split; [|apply sort_elems_perm].
+  assert (Hok' : elabs_ok (sort_elems elems)) by (intros y Hy; apply Hok; apply sort_elems_in; exact Hy).
+  assert (Hlen' : same_len (sort_elems elems)) by (exists 256; intros y Hy; apply Hlen; apply sort_elems_in; exact Hy).
+  split; [|exact Hlen']. apply sorted_lt_bits; try assumption. apply sort_elems_sorted. split; [exact Hnd|].
+  intros y Hy. destruct (Hok y Hy) as [Wy _]. destruct (WF_parts _ Wy) as (H & _). exact H.
+Qed.
+
+Lemma set_ok_perm q S S' : Permutation S S' -> set_ok q S' -> set_ok q S.
+Proof.
+  intros P (Hok & Hlen & Hnd & Hq). repeat split.
+  - apply Hok. eapply Permutation_in; eassumption.
+  - apply Hok. eapply Permutation_in; eassumption.
+  - intros x Hx. apply Hlen. eapply Permutation_in; eassumption.
+  - eapply Permutation_NoDup; [apply Permutation_sym; apply Permutation_map; exact P | exact Hnd].
+  - intros x Hx. apply Hq. eapply Permutation_in; eassumption.
+Qed.
+
+(* ------------------------------------------------------------------ the root *)
+Definition root_inv (latest : N) (t : tree) : Prop := canon_root t /\ leaves_ok latest (leaves t).
+
+Lemma leaves_ok_mono e e' ls : e <= e' -> leaves_ok e ls -> leaves_ok e' ls.
+Proof. intros H L y Hy. destruct (L y Hy) as (A & B & C). repeat split; try assumption. lia. Qed.
+
+Section InsRoot.
+  Variable empty : nlabel.
+  Hypothesis Ce : canonical empty = false.
+
+  Theorem ins_root latest root s e :
+    root_inv latest root -> latest < e -> good_set s -> eset_list s <> [] -> set_ok [] (eset_list s) ->
+    (forall x y, In x (eset_list s) -> In y (leaves root) -> e_label x <> lf_label y) ->
+    exists r isn k, ins empty ins_fuel (Some root) s e = Some (r, isn, k) /\
+                    canon_root r /\ Permutation (leaves r) (leaves root ++ map (lf_of e) (eset_list s)).
+  Proof.
+    intros [Hc Hl] Hlt Hg Hne Hso Hdis. set (S := eset_list s) in *.
+    assert (He : 1 <= e) by lia.
+    destruct root as [|l le mde a b]; [destruct Hc|]. destruct Hc as (-> & Ca & Cb & Ele & Emde).
+    assert (Hla : leaves_ok e (oleaves a)).
+    { apply (leaves_ok_mono latest e); [lia|]. intros z Hz. apply Hl. cbn [leaves]. apply in_or_app. left. destruct a; [exact Hz | destruct Hz]. }
+    assert (Hlb : leaves_ok e (oleaves b)).
+    { apply (leaves_ok_mono latest e); [lia|]. intros z Hz. apply Hl. cbn [leaves]. apply in_or_app. right. destruct b; [exact Hz | destruct Hz]. }
+    unfold ins_fuel. change 300%nat with (Datatypes.S 299). rewrite ins_unfold. unfold cur_node. cbn [tlabel].
+    assert (E : (llen (get_longest_common_prefix empty nl_root (eset_lcp empty s)) <? llen nl_root) = false).
+    { apply N.ltb_ge. cbn [llen nl_root]. lia. }
+    rewrite E.
+    assert (Wr : WF nl_root) by (apply nl_root_wf). assert (Cr : canonical nl_root = true) by (apply nl_root_wf).
+    assert (Hso' : set_ok (bits_of nl_root) S) by (rewrite bits_of_root; exact Hso).
+    assert (H256 : forall x, In x S -> length (bits_of (e_label x)) = 256%nat).
+    { intros x Hx. destruct Hso as (Hok & Hlen & _). rewrite len_bits by (apply Hok; exact Hx). rewrite (Hlen x Hx). reflexivity. }
+    assert (Hnn : forall x, In x S -> pord (bits_of nl_root) (bits_of (e_label x)) <> None).
+    { intros x Hx. rewrite bits_of_root. unfold pord. rewrite (H256 x Hx). cbn. discriminate. }
+    assert (Hcpa : child_pre (bits_of nl_root) e S false a).
+    { destruct a as [c|]; [|exact I]. destruct Ca as [Pc Cc]. cbn [child_pre tree_pre]. rewrite bits_of_root.
+      split; [exact Cc|]. split; [apply pord_prefix; exact Pc|]. split; [exact Hla|].
+      intros x y Hx Hy. apply filter_In in Hx. apply Hdis; [apply Hx | cbn [leaves]; apply in_or_app; left; exact Hy]. }
+    assert (Hcpb : child_pre (bits_of nl_root) e S true b).
+    { destruct b as [c|]; [|exact I]. destruct Cb as [Pc Cc]. cbn [child_pre tree_pre]. rewrite bits_of_root.
+      split; [exact Cc|]. split; [apply pord_prefix; exact Pc|]. split; [exact Hlb|].
+      intros x y Hx Hy. apply filter_In in Hx. apply Hdis; [apply Hx | cbn [leaves]; apply in_or_app; right; exact Hy]. }
+    assert (Hrec : rec_ok (ins empty 299) e (bits_of nl_root)).
+    { intros dir t' s' Hg' Hne' Hso2 Hpre'. apply (ins_spec empty Ce); try assumption. rewrite app_length. cbn [length]. lia. }
+    destruct (finish_spec (ins empty 299) nl_root le mde a b false 0 s e Wr Cr Hg Hso' Hnn Hcpa Hcpb Hrec) as (a2 & b2 & k' & EF & Sa & Sb).
+    fold S in EF, Sa, Sb. rewrite bits_of_root in EF, Sa, Sb.
+    assert (Fa : match a with Some c0 => canon c0 /\ pord [] (bits_of (tlabel c0)) = Some false /\ leaves_ok e (leaves c0) | None => True end).
+    { destruct a as [c|]; [|exact I]. destruct Ca as [Pc Cc]. split; [exact Cc | split; [exact Pc | exact Hla]]. }
+    assert (Fb : match b with Some c0 => canon c0 /\ pord [] (bits_of (tlabel c0)) = Some true /\ leaves_ok e (leaves c0) | None => True end).
+    { destruct b as [c|]; [|exact I]. destruct Cb as [Pc Cc]. split; [exact Cc | split; [exact Pc | exact Hlb]]. }
+    destruct (slot_facts _ _ _ _ _ _ Sa He Fa) as (PA & FA). destruct (slot_facts _ _ _ _ _ _ Sb He Fb) as (PB & FB).
+    eexists. exists false, k'. split; [exact EF|].
+    (* epochs of the old children *)
+    assert (Ba : match a with Some c => t_last_epoch c <= e /\ 1 <= t_min_desc c /\ t_min_desc c <= e | None => True end).
+    { destruct a as [c|]; [|exact I]. destruct Ca as [_ Cc]. apply canon_epochs; [exact Cc | exact Hla]. }
+    assert (Bb : match b with Some c => t_last_epoch c <= e /\ 1 <= t_min_desc c /\ t_min_desc c <= e | None => True end).
+    { destruct b as [c|]; [|exact I]. destruct Cb as [_ Cc]. apply canon_epochs; [exact Cc | exact Hlb]. }
+    destruct (side_cover [] S Hne ltac:(rewrite <- bits_of_root; exact Hnn)) as [HL|HR].
+    - split.
+      + cbn [canon_root]. split; [reflexivity|].
+        destruct Sa as [[E0 ->]|[_ (ra & -> & Pra)]]; [congruence|].
+        destruct FA as (Cra & Pora & Lra & Lrae & Mra). specialize (Lrae HL).
+        split; [cbn [canon_child]; split; assumption|].
+        destruct b2 as [rb|].
+        * destruct FB as (Crb & Porb & Lrb & Lrbe & Mrb). split; [cbn [canon_child]; split; assumption|].
+          cbn [olast omin]. rewrite Lrae, Mra, Mrb.
+          destruct (filter (side [] false) S) as [|x0 SL]; [congruence|].
+          destruct (filter (side [] true) S) as [|y0 SR] eqn:ESR.
+          -- destruct Sb as [[_ Eb]|[Hx _]]; [|congruence]. subst b. destruct Bb as (B1 & B2 & B3).
+             destruct a as [ca|]; cbn [le_upd mde_upd omde olast omin] in *.
+             ++ destruct Ba as (A1 & A2 & A3). subst le mde.
+                assert (E1 : (N.min (t_min_desc ca) (t_min_desc rb) =? 0) = false) by (apply N.eqb_neq; lia). rewrite E1. split; lia.
+             ++ subst le mde. assert (E1 : (t_min_desc rb =? 0) = false) by (apply N.eqb_neq; lia). rewrite E1. split; lia.
+          -- specialize (Lrbe ltac:(discriminate)).
+             destruct a as [ca|]; destruct b as [cb|]; cbn [le_upd mde_upd omde olast omin] in *; subst le mde.
+             ++ destruct Ba as (A1 & A2 & A3). destruct Bb as (B1 & B2 & B3).
+                assert (E1 : (N.min (t_min_desc ca) (t_min_desc cb) =? 0) = false) by (apply N.eqb_neq; lia). rewrite E1.
+                assert (E2 : (N.min (N.min (t_min_desc ca) (t_min_desc cb)) (t_min_desc ca) =? 0) = false) by (apply N.eqb_neq; lia). rewrite E2. split; lia.
+             ++ destruct Ba as (A1 & A2 & A3).
+                assert (E1 : (t_min_desc ca =? 0) = false) by (apply N.eqb_neq; lia). rewrite E1.
+                assert (E2 : (N.min (t_min_desc ca) (t_min_desc ca) =? 0) = false) by (apply N.eqb_neq; lia). rewrite E2. split; lia.
+             ++ destruct Bb as (B1 & B2 & B3).
+                assert (E1 : (t_min_desc cb =? 0) = false) by (apply N.eqb_neq; lia). rewrite E1.
+                assert (E2 : (N.min (t_min_desc cb) e =? 0) = false) by (apply N.eqb_neq; lia). rewrite E2. split; lia.
+             ++ change (0 =? 0) with true. cbv iota. assert (E2 : (e =? 0) = false) by (apply N.eqb_neq; lia). rewrite E2. split; lia.
+        * destruct FB as [-> ESR]. split; [exact I|]. rewrite ESR.
+          destruct (filter (side [] false) S) as [|x0 SL]; [congruence|].
+          cbn [olast omin le_upd mde_upd omde]. rewrite Lrae, Mra.
+          destruct a as [ca|]; cbn [omde olast omin] in *; subst le mde.
+          -- destruct Ba as (A1 & A2 & A3). assert (E1 : (t_min_desc ca =? 0) = false) by (apply N.eqb_neq; lia). rewrite E1. split; lia.
+          -- change (0 =? 0) with true. cbv iota. split; lia.
+      + cbn [leaves]. destruct a2, b2, a, b; cbn [oleaves] in PA, PB |- *;
+          (eapply Permutation_trans; [apply Permutation_app; [exact PA | exact PB]|]);
+          (eapply Permutation_trans; [apply perm_shuffle|]); apply Permutation_app_head; apply sides_perm;
+          intros x Hx; rewrite <- bits_of_root; apply Hnn; exact Hx.
+    - split.
+      + cbn [canon_root]. split; [reflexivity|].
+        destruct Sb as [[E0 ->]|[_ (rb & -> & Prb)]]; [congruence|].
+        destruct FB as (Crb & Porb & Lrb & Lrbe & Mrb). specialize (Lrbe HR).
+        destruct a2 as [ra|].
+        * destruct FA as (Cra & Pora & Lra & Lrae & Mra). split; [cbn [canon_child]; split; assumption|].
+          split; [cbn [canon_child]; split; assumption|].
+          cbn [olast omin]. rewrite Lrbe, Mra, Mrb.
+          destruct (filter (side [] true) S) as [|y0 SR]; [congruence|].
+          destruct (filter (side [] false) S) as [|x0 SL] eqn:ESL.
+          -- destruct Sa as [[_ Ea]|[Hx _]]; [|congruence]. subst a. destruct Ba as (A1 & A2 & A3).
+             destruct b as [cb|]; cbn [le_upd mde_upd omde olast omin] in *.
+             ++ destruct Bb as (B1 & B2 & B3). subst le mde.
+                assert (E1 : (N.min (t_min_desc ra) (t_min_desc cb) =? 0) = false) by (apply N.eqb_neq; lia). rewrite E1. split; lia.
+             ++ subst le mde. assert (E1 : (t_min_desc ra =? 0) = false) by (apply N.eqb_neq; lia). rewrite E1. split; lia.
+          -- specialize (Lrae ltac:(discriminate)).
+             destruct a as [ca|]; destruct b as [cb|]; cbn [le_upd mde_upd omde olast omin] in *; subst le mde.
+             ++ destruct Ba as (A1 & A2 & A3). destruct Bb as (B1 & B2 & B3).
+                assert (E1 : (N.min (t_min_desc ca) (t_min_desc cb) =? 0) = false) by (apply N.eqb_neq; lia). rewrite E1.
+                assert (E2 : (N.min (N.min (t_min_desc ca) (t_min_desc cb)) (t_min_desc ca) =? 0) = false) by (apply N.eqb_neq; lia). rewrite E2. split; lia.
+             ++ destruct Ba as (A1 & A2 & A3).
+                assert (E1 : (t_min_desc ca =? 0) = false) by (apply N.eqb_neq; lia). rewrite E1.
+                assert (E2 : (N.min (t_min_desc ca) (t_min_desc ca) =? 0) = false) by (apply N.eqb_neq; lia). rewrite E2. split; lia.
+             ++ destruct Bb as (B1 & B2 & B3).
+                assert (E1 : (t_min_desc cb =? 0) = false) by (apply N.eqb_neq; lia). rewrite E1.
+                assert (E2 : (N.min (t_min_desc cb) e =? 0) = false) by (apply N.eqb_neq; lia). rewrite E2. split; lia.
+             ++ change (0 =? 0) with true. cbv iota. assert (E2 : (e =? 0) = false) by (apply N.eqb_neq; lia). rewrite E2. split; lia.
+        * destruct FA as [-> ESL]. split; [exact I|]. split; [cbn [canon_child]; split; assumption|]. rewrite ESL.
+          destruct (filter (side [] true) S) as [|y0 SR]; [congruence|].
+          cbn [olast omin le_upd mde_upd omde]. rewrite Lrbe, Mrb.
+          destruct b as [cb|]; cbn [omde olast omin] in *; subst le mde.
+          -- destruct Bb as (B1 & B2 & B3). assert (E1 : (t_min_desc cb =? 0) = false) by (apply N.eqb_neq; lia). rewrite E1. split; lia.
+          -- change (0 =? 0) with true. cbv iota. split; lia.
+      + cbn [leaves]. destruct a2, b2, a, b; cbn [oleaves] in PA, PB |- *;
+          (eapply Permutation_trans; [apply Permutation_app; [exact PA | exact PB]|]);
+          (eapply Permutation_trans; [apply perm_shuffle|]); apply Permutation_app_head; apply sides_perm;
+          intros x Hx; rewrite <- bits_of_root; apply Hnn; exact Hx.
+  Qed.
+End InsRoot.
+
+(* ------------------------------------------------------------------ batches and histories *)
+Lemma NoDup_app_disj {A} (l1 l2 : list A) a : NoDup (l1 ++ l2) -> In a l1 -> In a l2 -> False.
+Proof.
+  induction l1 as [|x l1 IH]; intros Hn H1 H2; [destruct H1|]. cbn [app] in Hn. inversion Hn as [|? ? Hnot Hn']; subst.
+  destruct H1 as [->|H1]; [apply Hnot; apply in_or_app; right; exact H2 | exact (IH Hn' H1 H2)].
+Qed.
+
+Section Batches.
+  Variable empty : nlabel.
+  Hypothesis Ce : canonical empty = false.
+
+  Theorem batch_insert_spec root latest num elems :
+    root_inv latest root -> batch_ok elems ->
+    (forall x y, In x elems -> In y (leaves root) -> e_label x <> lf_label y) ->
+    exists r num', batch_insert empty (root, latest, num) elems = Some (r, latest + 1, num') /\
+                   root_inv (latest + 1) r /\
+                   Permutation (leaves r) (leaves root ++ map (lf_of (latest + 1)) elems).
+  Proof.
+    intros [Hc Hl] Hb Hdis. unfold batch_insert.
+    destruct elems as [|x0 r0] eqn:EE.
+    - cbn [eset_from eset_is_empty eset_list]. exists root, num. split; [reflexivity|]. split.
+      + split; [exact Hc | apply (leaves_ok_mono latest); [lia | exact Hl]].
+      + cbn [map]. rewrite app_nil_r. apply Permutation_refl.
+    - rewrite <- EE in *. assert (Hne : elems <> []) by (rewrite EE; discriminate).
+      destruct (eset_from_good elems Hne Hb) as [Hg HP].
+      set (s := eset_from elems) in *.
+      assert (HneS : eset_list s <> []).
+      { intros E0. rewrite E0 in HP. apply Permutation_nil in HP. congruence. }
+      assert (EIE : eset_is_empty s = false).
+      { destruct (eset_is_empty s) eqn:E0; [|reflexivity]. apply eset_is_empty_iff in E0. congruence. }
+      rewrite EIE.
+      assert (Hso : set_ok [] (eset_list s)).
+      { apply (set_ok_perm [] _ elems HP). destruct Hb as (B1 & B2 & B3). repeat split; try assumption; try (apply B1; assumption). }
+      assert (Hdis' : forall x y, In x (eset_list s) -> In y (leaves root) -> e_label x <> lf_label y).
+      { intros x y Hx Hy. apply Hdis; [eapply Permutation_in; eassumption | exact Hy]. }
+      destruct (ins_root empty Ce latest root s (latest + 1) (conj Hc Hl) ltac:(lia) Hg HneS Hso Hdis') as (r & isn & k & EI & Cr & Pr).
+      rewrite EI. exists r, (num + k). split; [reflexivity|].
+      assert (Pfinal : Permutation (leaves r) (leaves root ++ map (lf_of (latest + 1)) elems)).
+      { eapply Permutation_trans; [exact Pr|]. apply Permutation_app_head. apply Permutation_map. exact HP. }
+      split; [|exact Pfinal]. split; [exact Cr|].
+      apply (leaves_ok_perm _ _ _ Pfinal). apply leaves_ok_app.
+      + apply (leaves_ok_mono latest); [lia | exact Hl].
+      + apply leaves_ok_new; [lia | apply Hb].
+  Qed.
+
+  (* a publish history at the tree level: the batches of epochs 1, 2, ... *)
+  Fixpoint run_batches (st : tree * N * N) (bs : list (list elem)) : option (tree * N * N) :=
+    match bs with
+    | [] => Some st
+    | b :: rest => match batch_insert empty st b with Some st' => run_batches st' rest | None => None end
+    end.
+  Fixpoint hist_leaves (k : N) (bs : list (list elem)) : list leaf :=
+    match bs with
+    | [] => []
+    | b :: rest => map (lf_of k) b ++ hist_leaves (k + 1) rest
+    end.
+
+  Lemma run_batches_spec : forall bs root latest num,
+    root_inv latest root -> (forall b, In b bs -> batch_ok b) ->
+    NoDup (map lf_label (leaves root) ++ map e_label (concat bs)) ->
+    exists t num', run_batches (root, latest, num) bs = Some (t, latest + N.of_nat (length bs), num') /\
+                   root_inv (latest + N.of_nat (length bs)) t /\
+                   Permutation (leaves t) (leaves root ++ hist_leaves (latest + 1) bs).
+  Proof.
+    induction bs as [|b rest IH]; intros root latest num Hinv Hok Hnd.
+    - exists root, num. cbn [run_batches length hist_leaves]. rewrite N.add_0_r, app_nil_r. split; [reflexivity|]. split; [exact Hinv | apply Permutation_refl].
+    - cbn [run_batches]. cbn [concat] in Hnd. rewrite map_app in Hnd.
+      assert (Hdis : forall x y, In x b -> In y (leaves root) -> e_label x <> lf_label y).
+      { intros x y Hx Hy E. apply (NoDup_app_disj _ _ (lf_label y) Hnd).
+        - apply in_map. exact Hy.
+        - apply in_or_app. left. rewrite <- E. apply in_map. exact Hx. }
+      destruct (batch_insert_spec root latest num b Hinv (Hok b (or_introl eq_refl)) Hdis) as (r & num1 & EB & Hinv1 & P1).
+      rewrite EB.
+      assert (Hnd1 : NoDup (map lf_label (leaves r) ++ map e_label (concat rest))).
+      { eapply Permutation_NoDup; [|exact Hnd]. rewrite app_assoc. apply Permutation_app_tail.
+        apply Permutation_sym. eapply Permutation_trans; [apply Permutation_map; exact P1|].
+        rewrite map_app. apply Permutation_app_head. rewrite map_map. cbn [lf_of lf_label]. apply Permutation_refl. }
+      destruct (IH r (latest + 1) num1 Hinv1 (fun b' Hb' => Hok b' (or_intror Hb')) Hnd1) as (t & num' & ER & Hinv2 & P2).
+      exists t, num'. cbn [length hist_leaves]. rewrite Nat2N.inj_succ.
+      replace (latest + N.succ (N.of_nat (length rest))) with (latest + 1 + N.of_nat (length rest)) by lia.
+      split; [exact ER|]. split; [exact Hinv2|].
+      eapply Permutation_trans; [exact P2|]. rewrite app_assoc. apply Permutation_app_tail. exact P1.
+  Qed.
+End Batches.
+
+(* ------------------------------------------------------------------ C01 / C14 at the tree level *)
+Section Final.
+  Variable empty : nlabel.
+  Hypothesis Ce : canonical empty = false.
+
+  Lemma azks_new_inv : root_inv 0 empty_root.
+  Proof.
+    split; [|intros y []]. cbn [canon_root empty_root]. repeat split; reflexivity.
+  Qed.
+
+  (* after any history of batches of distinct 256-bit labels, inserted by the model of
+     batch_insert_nodes, the root hash is the hash of the specification trie over exactly the leaves
+     the history prescribes (label, value, epoch of insertion) - for every hash configuration *)
+  Theorem azks_history_is_spec (cfg : config) bs :
+    (forall b, In b bs -> batch_ok b) -> NoDup (map e_label (concat bs)) ->
+    exists t num, run_batches empty azks_new bs = Some (t, N.of_nat (length bs), num) /\
+                  root_inv (N.of_nat (length bs)) t /\
+                  Permutation (leaves t) (hist_leaves 1 bs) /\
+                  root_hash cfg true t = spec_root_hash cfg (map sleaf_of (hist_leaves 1 bs)).
+  Proof.
+    intros Hok Hnd. unfold azks_new.
+    destruct (run_batches_spec empty Ce bs empty_root 0 1 azks_new_inv Hok Hnd) as (t & num & ER & Hinv & HP).
+    cbn [leaves empty_root app] in HP. rewrite N.add_0_l in ER, Hinv. change (0 + 1) with 1 in HP.
+    exists t, num. split; [exact ER|]. split; [exact Hinv|]. split; [exact HP|].
+    rewrite (canon_root_hash cfg t (proj1 Hinv)). unfold spec_root_hash, sleaves.
+    rewrite (spec_root_perm _ _ (Permutation_map sleaf_of HP)). reflexivity.
+  Qed.
+
+  (* C14: the order of the elements inside each batch is irrelevant *)
+  Theorem azks_history_order (cfg : config) bs bs' :
+    (forall b, In b bs -> batch_ok b) -> NoDup (map e_label (concat bs)) ->
+    Forall2 (@Permutation elem) bs bs' ->
+    exists t t' num num', run_batches empty azks_new bs = Some (t, N.of_nat (length bs), num) /\
+                          run_batches empty azks_new bs' = Some (t', N.of_nat (length bs), num') /\ t = t'.
+  Proof.
+    intros Hok Hnd HF.
+    assert (Hok' : forall b, In b bs' -> batch_ok b).
+    { clear Hnd. induction HF as [|b b' r r' Hb _ IH]; intros c Hc; [destruct Hc|]. destruct Hc as [<-|Hc].
+      - destruct (Hok b (or_introl eq_refl)) as (B1 & B2 & B3). repeat split.
+        + apply B1. eapply Permutation_in; [apply Permutation_sym; exact Hb | exact H].
+        + apply B1. eapply Permutation_in; [apply Permutation_sym; exact Hb | exact H].
+        + intros x Hx. apply B2. eapply Permutation_in; [apply Permutation_sym; exact Hb | exact Hx].
+        + eapply Permutation_NoDup; [apply Permutation_map; exact Hb | exact B3].
+      - apply IH; [intros d Hd; apply Hok; right; exact Hd | exact Hc]. }
+    assert (Hcat : Permutation (concat bs) (concat bs')).
+    { clear Hok Hok' Hnd. induction HF as [|b b' r r' Hb _ IH]; [constructor|]. cbn [concat]. apply Permutation_app; assumption. }
+    assert (Hnd' : NoDup (map e_label (concat bs'))) by (eapply Permutation_NoDup; [apply Permutation_map; exact Hcat | exact Hnd]).
+    assert (Hlen : length bs' = length bs).
+    { clear - HF. induction HF as [|b b' r r' _ _ IH]; [reflexivity|]. cbn [length]. rewrite IH. reflexivity. }
+    assert (Hhl : forall k, Permutation (hist_leaves k bs) (hist_leaves k bs')).
+    { clear Hok Hok' Hnd Hnd' Hcat Hlen. induction HF as [|b b' r r' Hb _ IH]; intros k; [constructor|]. cbn [hist_leaves].
+      apply Permutation_app; [apply Permutation_map; exact Hb | apply IH]. }
+    destruct (azks_history_is_spec cfg bs Hok Hnd) as (t & num & E1 & I1 & P1 & _).
+    destruct (azks_history_is_spec cfg bs' Hok' Hnd') as (t' & num' & E2 & I2 & P2 & _).
+    rewrite Hlen in E2. exists t, t', num, num'. split; [exact E1|]. split; [exact E2|].
+    rewrite <- (canon_root_spec t (proj1 I1)), <- (canon_root_spec t' (proj1 I2)). unfold sleaves.
+    apply spec_root_perm. apply Permutation_map.
+    eapply Permutation_trans; [exact P1|]. eapply Permutation_trans; [apply Hhl|]. apply Permutation_sym. exact P2.
+  Qed.
+End Final.
